@@ -126,6 +126,14 @@ func c20Run(c *caseCtx) (res caseResult) {
 	}
 	probe := &probeActor{}
 	probePID := h.Spawn(func() actor.Receiver { return probe }, "probe", actor.WithID("0"))
+	// in a burst every handshake comes from a peer of its own: the answer goes to the peer that asked
+	var peers []*probeActor
+	var peerPIDs []*actor.PID
+	for i := 0; i < 5; i++ {
+		pa := &probeActor{}
+		peers = append(peers, pa)
+		peerPIDs = append(peerPIDs, h.Spawn(func() actor.Receiver { return pa }, "peer", actor.WithID(fmt.Sprint(i))))
+	}
 	model := map[string]*cluster.Member{"node": cl.Member()}
 	// the universe: listening remotes
 	var stops []*remote.Remote
@@ -362,24 +370,39 @@ func c20Run(c *caseCtx) (res caseResult) {
 			if len(absent) < 2 {
 				continue
 			}
-			n0 := probe.count()
+			n0 := make([]int, len(peers))
+			for i, pa := range peers {
+				n0[i] = pa.count()
+			}
 			var expected [][]string
-			for _, m := range absent {
+			for i, m := range absent {
 				model[m.ID] = m
 				expected = append(expected, modelIDs())
-				h.SendWithSender(providerPID, &cluster.Handshake{Member: m.CloneVT()}, probePID)
+				h.SendWithSender(providerPID, &cluster.Handshake{Member: m.CloneVT()}, peerPIDs[i%len(peers)])
 			}
-			if !waitFor(wd, func() bool { return probe.count() >= n0+len(absent) }) {
-				res.inconclusive("step %d: %d of %d handshakes of a burst were answered", step, probe.count()-n0, len(absent))
+			answered := func() int {
+				t := 0
+				for i, pa := range peers {
+					t += pa.count() - n0[i]
+				}
+				return t
+			}
+			what = fmt.Sprintf("burst of %d handshakes, each from a peer of its own", len(absent))
+			if !waitFor(wd, func() bool { return answered() >= len(absent) }) {
+				res.inconclusive("step %d: %d of %d handshakes of a burst were answered", step, answered(), len(absent))
 				return
 			}
-			probe.mu.Lock()
-			got := append([][]string(nil), probe.replies[n0:n0+len(absent)]...)
-			probe.mu.Unlock()
-			what = fmt.Sprintf("burst of %d handshakes", len(absent))
-			for i := range expected {
-				if strings.Join(got[i], ",") != strings.Join(expected[i], ",") {
-					res.violate("step %d (%s): handshake %d of the burst was answered with %v, the complete member list at that point was %v (an answer must not change after it has been given)", step, what, i, got[i], expected[i])
+			for i := range absent {
+				pa := peers[i%len(peers)]
+				pa.mu.Lock()
+				got := append([][]string(nil), pa.replies[n0[i%len(peers)]:]...)
+				pa.mu.Unlock()
+				if len(got) != 1 {
+					res.violate("step %d (%s): the peer that sent handshake %d received %d answers, the others %d: every handshake is answered to the peer that sent it", step, what, i, len(got), answered()-len(got))
+					break
+				}
+				if strings.Join(got[0], ",") != strings.Join(expected[i], ",") {
+					res.violate("step %d (%s): handshake %d of the burst was answered with %v, the complete member list at that point was %v (an answer must not change after it has been given)", step, what, i, got[0], expected[i])
 					break
 				}
 			}
